@@ -26,11 +26,11 @@ Theorem C07_listing_sorted : forall sfx l,
   Permutation (sort_by_key sfx l) l /\ StronglySorted (fun x y => key_le sfx x y = true) (sort_by_key sfx l).
 Proof. intros sfx l. split; [apply sort_by_key_perm | apply sort_by_key_strongly_sorted]. Qed.
 
-(* ... in which, whatever the suffix (trc, txt, none) and however many digits the restart counter has (9999, 10000),
+(* ... in which, whatever the suffix (trc, txt, none), however many digits the restart counter has (9999, 10000), and
+   whatever the fixed name part and the infix contain (even ".restart-": the counter is read behind the last one),
    a file written later under the same time stamp is listed before (= newer than) the earlier ones, compressed or not *)
 Theorem C07_listing_restart_order : forall f sp sfx fixed i j k1 k2 (g1 g2 : bool),
   fsfx sp = sfx -> j <> [] ->
-  contains restart_tag (under fixed ++ i) = false ->
   strip_suffix (dot :: gz_sfx) (as_name sp fixed (Some j)) = None ->
   (k1 < k2)%N ->
   let n1 := add_gz g1 (as_name sp fixed (Some (restart_infix i k1))) in
@@ -41,7 +41,6 @@ Proof. exact related_files_restart_order. Qed.
 
 Theorem C07_listing_plain_last : forall sp sfx fixed i k (g0 g1 : bool) l,
   fsfx sp = sfx -> i <> [] ->
-  contains restart_tag (under fixed ++ i) = false ->
   strip_suffix (dot :: gz_sfx) (as_name sp fixed (Some i)) = None ->
   let n0 := add_gz g0 (as_name sp fixed (Some i)) in
   let n1 := add_gz g1 (as_name sp fixed (Some (restart_infix i k))) in
